@@ -115,8 +115,8 @@ ContainsRes(l, r, st) ==
   ELSE CASE l.t = "str"  -> IF r.t \in {"str", "int"} THEN Bool(HasSub(l.v, ToStr(r))) ELSE Err("UNSPEC")
          [] l.t = "arr"  -> IF r.t \in {"str", "int"} /\ \A i \in DOMAIN l.v : l.v[i].t \in {"str", "int", "nil"}
                             THEN Bool(\E i \in DOMAIN l.v : LEq(l.v[i], r)) ELSE Err("UNSPEC")
-         [] l.t = "hash" -> IF r.t = "str" THEN Bool(HHas(l.v, r.v)) ELSE Err("UNSPEC")
-         [] l.t = "range" -> IF r.t = "int" THEN Bool(r.v >= l.a /\ r.v <= l.b) ELSE Err("UNSPEC")
+         [] l.t = "hash" -> IF r.t = "str" THEN Bool(HHas(l.h, r.v)) ELSE Err("UNSPEC")
+         [] l.t = "range" -> IF r.t = "int" THEN Bool(r.n >= l.a /\ r.n <= l.b) ELSE Err("UNSPEC")
          [] l.t = "undef" -> Bool(FALSE)
          [] OTHER -> Err("LiquidTypeError")
 
@@ -142,7 +142,7 @@ Eval(e, st) ==
              b == Eval(e.b, st) IN
          IF IsErr(a) THEN a ELSE IF IsErr(b) THEN b
          ELSE IF UndefErr(a, st, "range") \/ UndefErr(b, st, "range") THEN Err("UndefinedError")
-         ELSE IF a.t = "int" /\ b.t = "int" THEN Range(a.v, b.v)
+         ELSE IF a.t = "int" /\ b.t = "int" THEN Range(a.n, b.n)
          ELSE Err("UNSPEC")
     [] e.k = "arrlit" -> EvalSeq(e.items, 1, st)
     [] e.k = "tstr" ->
@@ -164,20 +164,20 @@ Eval(e, st) ==
     [] e.k = "not" ->
          LET v == Eval(e.e, st) IN
          IF IsErr(v) THEN v ELSE
-         LET t == TruthOf(v, st) IN IF IsErr(t) THEN t ELSE Bool(~t.v)
+         LET t == TruthOf(v, st) IN IF IsErr(t) THEN t ELSE Bool(~t.b)
     [] e.k = "and" ->
          LET l == Eval(e.l, st) IN
          IF IsErr(l) THEN l ELSE
          LET tl == TruthOf(l, st) IN
          IF IsErr(tl) THEN tl
-         ELSE IF ~tl.v THEN Bool(FALSE)
+         ELSE IF ~tl.b THEN Bool(FALSE)
          ELSE LET r == Eval(e.r, st) IN IF IsErr(r) THEN r ELSE TruthOf(r, st)
     [] e.k = "or" ->
          LET l == Eval(e.l, st) IN
          IF IsErr(l) THEN l ELSE
          LET tl == TruthOf(l, st) IN
          IF IsErr(tl) THEN tl
-         ELSE IF tl.v THEN Bool(TRUE)
+         ELSE IF tl.b THEN Bool(TRUE)
          ELSE LET r == Eval(e.r, st) IN IF IsErr(r) THEN r ELSE TruthOf(r, st)
     [] e.k = "cmp" ->
          LET l == Eval(e.l, st)
@@ -259,7 +259,7 @@ ApplyLambda(name, lam, left, st) ==
          [] name = "find_index" -> IF idx = 0 THEN Nil ELSE IntV(idx - 1)
          [] name = "has" -> Bool(idx # 0)
          [] name = "sort" -> IF AllScalars(vals) /\ Homogeneous(vals) THEN Arr(SortByKeys(seq, vals)) ELSE Err("UNSPEC")
-         [] name = "uniq" -> IF \A i \in DOMAIN vals : vals[i].t = "str" \/ (vals[i].t = "int" /\ vals[i].v \notin {0, 1})
+         [] name = "uniq" -> IF \A i \in DOMAIN vals : vals[i].t = "str" \/ (vals[i].t = "int" /\ vals[i].n \notin {0, 1})
                              THEN Arr(UniqBy(seq, vals, 1, <<>>)) ELSE Err("UNSPEC")
          [] name = "sum" -> IF \A i \in DOMAIN vals : vals[i].t \in {"int", "nil", "undef"}
                             THEN IntV(SumInts(SelectSeq(vals, LAMBDA v : v.t = "int"))) ELSE Err("UNSPEC")
@@ -350,21 +350,25 @@ ExecElifs(elifs, els, st) ==
        IF IsErr(c) THEN Fail(st, c.cls)
        ELSE LET t == TruthOf(c, st) IN
             IF IsErr(t) THEN Fail(st, t.cls)
-            ELSE IF t.v THEN ExecBlock(elifs[1].body, st)
+            ELSE IF t.b THEN ExecBlock(elifs[1].body, st)
             ELSE ExecElifs(Tail(elifs), els, st)
 
 \* every `when` whose list contains a value equal to the subject renders, in
-\* order; matched = some when matched
-ExecWhens(whens, subj, i, matched, st) ==
+\* order; matched = some when matched.  The subject expression `se` is evaluated
+\* for each `when` (as in the reference implementation of Liquid), so a `when`
+\* block that reassigns it changes what later `when`s compare with.
+ExecWhens(whens, se, i, matched, st) ==
   IF st.err # "" \/ st.intr # "" THEN [st |-> st, matched |-> matched]
   ELSE IF i > Len(whens) THEN [st |-> st, matched |-> matched]
-  ELSE LET vals == EvalSeq(whens[i].es, 1, st) IN
-       IF IsErr(vals) THEN [st |-> Fail(st, vals.cls), matched |-> matched]
+  ELSE LET subj == Eval(se, st)
+           vals == EvalSeq(whens[i].es, 1, st) IN
+       IF IsErr(subj) THEN [st |-> Fail(st, subj.cls), matched |-> matched]
+       ELSE IF IsErr(vals) THEN [st |-> Fail(st, vals.cls), matched |-> matched]
        ELSE IF UndefErr(subj, st, "eq") \/ \E j \in DOMAIN vals.v : UndefErr(vals.v[j], st, "eq")
             THEN [st |-> Fail(st, "UndefinedError"), matched |-> matched]
        ELSE IF \E j \in DOMAIN vals.v : LEq(subj, vals.v[j])
-            THEN ExecWhens(whens, subj, i + 1, TRUE, ExecBlock(whens[i].body, st))
-            ELSE ExecWhens(whens, subj, i + 1, matched, st)
+            THEN ExecWhens(whens, se, i + 1, TRUE, ExecBlock(whens[i].body, st))
+            ELSE ExecWhens(whens, se, i + 1, matched, st)
 
 \* iterate: items = the slice to run, f = forloop record being advanced
 ExecFor(n, items, i, f, st) ==
@@ -406,12 +410,12 @@ ExecNode(n, st) ==
          IF IsErr(c) THEN Fail(st, c.cls)
          ELSE LET t == TruthOf(c, st) IN
               IF IsErr(t) THEN Fail(st, t.cls)
-              ELSE IF ~t.v THEN ExecBlock(n.body, st)
+              ELSE IF ~t.b THEN ExecBlock(n.body, st)
               ELSE ExecElifs(n.elifs, n.else, st)
     [] n.k = "case" ->
-         LET subj == Eval(n.e, st) IN
+         LET subj == IF n.whens = <<>> THEN Nil ELSE Eval(n.e, st) IN
          IF IsErr(subj) THEN Fail(st, subj.cls)
-         ELSE LET r == ExecWhens(n.whens, subj, 1, FALSE, st) IN
+         ELSE LET r == ExecWhens(n.whens, n.e, 1, FALSE, st) IN
               IF r.st.err # "" \/ r.st.intr # "" \/ r.matched \/ ~n.else.has THEN r.st
               ELSE ExecBlock(n.else.body, r.st)
     [] n.k = "for" ->
@@ -427,16 +431,16 @@ ExecNode(n, st) ==
                  ELSE IF IsErr(off) THEN Fail(st, off.cls)
                  ELSE IF (n.limit.has /\ lim.t # "int") \/ (n.offset.has /\ ~n.offset.cont /\ off.t # "int")
                       THEN Fail(st, "UNSPEC")
-                 ELSE IF (n.limit.has /\ lim.v < 0) \/ (n.offset.has /\ ~n.offset.cont /\ off.v < 0)
+                 ELSE IF (n.limit.has /\ lim.n < 0) \/ (n.offset.has /\ ~n.offset.cont /\ off.n < 0)
                       THEN Fail(st, "UNSPEC")
                  ELSE
                  LET key   == n.n \o "-" \o n.itsrc
                      total == Len(all.v)
                      o     == IF ~n.offset.has THEN 0
                               ELSE IF n.offset.cont THEN SeqGet(st.stop, key, 0)
-                              ELSE off.v
+                              ELSE off.n
                      avail == IF total - o > 0 THEN total - o ELSE 0
-                     len   == IF n.limit.has /\ lim.v < avail THEN lim.v ELSE avail
+                     len   == IF n.limit.has /\ lim.n < avail THEN lim.n ELSE avail
                      slice == SubSeq(all.v, o + 1, o + len)
                      items == IF n.rev THEN Reverse(slice) ELSE slice
                      s0    == [st EXCEPT !.stop = HPut(@, key, o + len)]
@@ -448,10 +452,10 @@ ExecNode(n, st) ==
                          IN [s1 EXCEPT !.loops = st.loops]
     [] n.k \in {"break", "continue"} -> [st EXCEPT !.intr = n.k]
     [] n.k = "incr" ->
-         LET c == IF HHas(st.counters, n.n) THEN HGet(st.counters, n.n).v ELSE 0 IN
+         LET c == IF HHas(st.counters, n.n) THEN HGet(st.counters, n.n).n ELSE 0 IN
          Write([st EXCEPT !.counters = HPut(@, n.n, IntV(c + 1))], ToString(c))
     [] n.k = "decr" ->
-         LET c == (IF HHas(st.counters, n.n) THEN HGet(st.counters, n.n).v ELSE 0) - 1 IN
+         LET c == (IF HHas(st.counters, n.n) THEN HGet(st.counters, n.n).n ELSE 0) - 1 IN
          Write([st EXCEPT !.counters = HPut(@, n.n, IntV(c))], ToString(c))
     [] n.k = "cycle" ->
          LET key == n.key
@@ -565,7 +569,7 @@ ExecInclude(n, st) ==
            ns == EvalKwargs(n.kwargs, st) IN
   IF IsErr(ns) THEN Fail(st, ns.cls)
   ELSE IF TooDeep(st) THEN Fail(st, "ContextDepthError")
-  ELSE LET s0 == [st EXCEPT !.scopes = Append(@, ns.v), !.tname = nm.v]
+  ELSE LET s0 == [st EXCEPT !.scopes = Append(@, ns.h), !.tname = nm.v]
            idx == Len(s0.scopes)
            done == IF n.mode = "none" THEN ExecTemplate(nodes, s0)
                    ELSE LET val == Eval(n.var, s0) IN
@@ -583,12 +587,12 @@ ExecRender(n, st) ==
            ns == EvalKwargs(n.kwargs, st) IN
   IF IsErr(ns) THEN Fail(st, ns.cls)
   ELSE IF st.cdepth > st.cfg.depthlimit THEN Fail(st, "ContextDepthError")
-  ELSE IF n.mode = "none" THEN Back(st, ExecTemplate(nodes, [Isolated(st, ns.v, {"include"}) EXCEPT !.tname = n.name.v]))
+  ELSE IF n.mode = "none" THEN Back(st, ExecTemplate(nodes, [Isolated(st, ns.h, {"include"}) EXCEPT !.tname = n.name.v]))
   ELSE LET val == Eval(n.var, st) IN
        IF IsErr(val) THEN Fail(st, val.cls)
        ELSE IF n.mode = "for" /\ val.t \in {"arr", "range"}
-       THEN RenderIterT(nodes, BindKey(n, n.name.v), IF val.t = "arr" THEN val.v ELSE RangeSeq(val), 1, ns.v, {"include"}, st, n.name.v)
-       ELSE Back(st, ExecTemplate(nodes, [Isolated(st, HPut(ns.v, BindKey(n, n.name.v), val), {"include"}) EXCEPT !.tname = n.name.v]))
+       THEN RenderIterT(nodes, BindKey(n, n.name.v), IF val.t = "arr" THEN val.v ELSE RangeSeq(val), 1, ns.h, {"include"}, st, n.name.v)
+       ELSE Back(st, ExecTemplate(nodes, [Isolated(st, HPut(ns.h, BindKey(n, n.name.v), val), {"include"}) EXCEPT !.tname = n.name.v]))
 
 \* bind call arguments to macro parameters (CallNode.macro_args): positional
 \* first, keywords may override, the rest go to `args` / `kwargs`
